@@ -443,6 +443,8 @@ pub struct Node {
 	pub last_poll_step: u64,
 	/// height at which the node went down (profile `deadlines` bounds the downtime, T3)
 	pub down_since: Option<u32>,
+	/// chain height when this incarnation finished its start-up sync (0 for the first)
+	pub live_since_height: u32,
 }
 
 #[derive(Clone, Debug)]
@@ -731,6 +733,7 @@ impl World {
 				gone: false,
 				last_poll_step: 0,
 				down_since: None,
+				live_since_height: 0,
 			};
 			node.live = Some(build_live(&node, None).expect("fresh node"));
 			nodes.push(node);
@@ -823,6 +826,10 @@ impl World {
 		} else if loc.contains("chain/onchaintx.rs") || loc.contains("chain/package.rs") {
 			// LDK's own (debug) assertions in the claim machinery are treated as on-chain oracles
 			("C07", "C07-0 panic in on-chain claim handling")
+		} else if msg.contains("Tried to fulfill an HTLC that was already failed") {
+			// the forwarder learnt the preimage from downstream after it had failed the upstream HTLC
+			// back: the downstream HTLC was still claimable when it did so (C02), whatever the profile
+			("C02", "C02-1 upstream HTLC failed back while the downstream HTLC was still claimable")
 		} else if msg.contains("found_blocker") {
 			// LDK's own debug assertion in the duplicate-claim path (FreeDuplicateClaimImmediately
 			// without the RAA blocker it wants to free), reached after a restart: C10's subject
